@@ -33,7 +33,7 @@ Section Gen.
   (* generator.go:GenerateBegin: a pop after every form but the last, when the form produced code *)
   Fixpoint gen_begin (es : list expr) : list instr :=
     match es with
-    | [] => []
+    | [] => [IPush ENil]      (* an empty body still has a value *)
     | [e] => gen e
     | e :: r => let c := gen e in (match c with [] => [] | _ => c ++ [IPop] end) ++ gen_begin r
     end.
